@@ -139,12 +139,18 @@ func seqBody(g lstore.Geometry, depth int) func() {
 					}
 					tr.touched, tr.at = true, s.Alloc.NewBlocks
 					repeat(s, T, "Get")
+				} else if g.Persistent && status.Code(err) == codes.Unavailable {
+					// persistent: released blocks return to the allocator only after the state file was rewritten,
+					// which these histories do only when they pick the syncer step: no free block for the refresh
 				} else if status.Code(err) != codes.NotFound {
 					failf("get-error-"+status.Code(err).String(), "Get(T) failed: %v", err)
 				}
 			case 4:
 				miss, err := s.FindMissing(T.Digest)
 				vsched.Obs("FM=%s:%v", status.Code(err), miss[T.Digest.String()])
+				if err != nil && g.Persistent && status.Code(err) == codes.Unavailable {
+					break
+				}
 				if err != nil {
 					failf("findmissing-error-"+status.Code(err).String(), "FindMissing(T) failed: %v", err)
 				}
@@ -157,7 +163,9 @@ func seqBody(g lstore.Geometry, depth int) func() {
 		}
 		if tr.touched && !tr.excluded && s.Alloc.NewBlocks < tr.at+s.Geo.Old+1 {
 			d, err := s.Get(T.Digest)
-			if err != nil || !bytes.Equal(d, T.Content) {
+			if g.Persistent && status.Code(err) == codes.Unavailable && present(s, T.Digest) {
+				// no free block for the refresh (see above); the object itself is still there
+			} else if err != nil || !bytes.Equal(d, T.Content) {
 				failf("touched-object-unreadable", "final Get(T) = %q, %v although only %d blocks were allocated since the touch (old_blocks=%d)", d, err, s.Alloc.NewBlocks-tr.at, s.Geo.Old)
 			}
 		}
